@@ -313,6 +313,14 @@ class Paths:
                             ext = True
                         elif fn.kind == "closure" and not pl["p"] and _borrows_closure_state(blk, pl["l"]):
                             ext = True   # `&mut (*_1).k`: the callee changes state the closure keeps between calls
+                if not ext and node[0] == "call" and node[1].split("::")[-1] in ("call", "call_mut", "call_once") and "::function::Fn" in node[1] and node[3]:
+                    # calling a callable the function was handed (by value or by reference) is an observable act of the
+                    # function, whatever the callable turns out to be
+                    b_ = node[3][0]
+                    while b_[0] in ("ref", "deref", "mut", "update"):
+                        b_ = b_[1]
+                    if b_[0] in ("param", "upvar"):
+                        ext = True
                 ev.append(("call", node, ext, _ret_ty(fn.body, t)))
             elif t["k"] == "switch" and k + 1 < len(path):
                 nxt = path[k + 1]
@@ -775,6 +783,21 @@ class Paths:
                 y2 = tuple(f(y) if _is_tree(y) else y for y in x)
                 if x[0] == "call" and len(y2) > 1 and _is_tree(y2[1]) and y2[1][0] != "call":
                     continue      # the call of a callable parameter that turned out to be a pure closure: no effect
+                if x[0] == "call" and len(y2) > 1 and _is_tree(y2[1]) and y2[1][0] == "call" and y2[1][1].split("::")[-1] in ("call", "call_mut", "call_once") \
+                        and "::function::Fn" in y2[1][1] and len(y2[1][3]) == 2:
+                    # the callable parameter is bound to a closure that acts (`|line| scanline.bresenham_intersection(line)`):
+                    # a single unconditional case is spliced in — its effects take the place of the call
+                    c_, tup_ = strip_refs(y2[1][3][0]), strip_refs(y2[1][3][1])
+                    if is_closure(c_) and tup_[0] == "agg" and tup_[1] == "tuple":
+                        saved_le = self.local_effects
+                        self.local_effects = True
+                        try:
+                            cases_ = self._apply_callable(c_, list(tup_[2]), 1)
+                        finally:
+                            self.local_effects = saved_le
+                        if cases_ is not None and len(cases_) == 1 and not cases_[0][0]:
+                            effects.extend(cases_[0][1])
+                            continue
                 effects.append(y2)
         return (facts, effects, f(s.ret))
 
